@@ -23,7 +23,6 @@ def collect_checks():
 
 
 NOT_APPLICABLE = {
-    "C07": "check under construction in this round (coordinator)",
     "C08": "check under construction in this round (builder sm)",
     "C09": "check under construction in this round (builder sm)",
     "C10": "check under construction in this round (builder sm)",
